@@ -9,7 +9,7 @@ Translation validation of the transit `Connection`, handshake part (PyIR, `WV.Ge
 
 * `pyState`: the Python strings of `Connection.state`;
 * `envH`: `envT` plus what the owner (`Common`) answers — `_send_this()`, `_expect_this()`, `connection_ready(self)`,
-  the two record keys — as `Env.retOf`;
+  the two record keys — as `Env.retOfT`;
 * rewriting lemmas for the sibling calls of `_dataReceived` (`_check_and_remove`, `_negotiationSuccessful`).
 -/
 namespace WV.Proofs.PyIRTr
@@ -33,12 +33,12 @@ def retH (E : C06.Env) (cfg : C07.Cfg) (ready : C07.CState) (obj meth : String) 
 
 /-- the environment of the handshake: `ready` is the state string `owner.connection_ready(self)` returns -/
 def envH (E : C06.Env) (cfg : C07.Cfg) (ready : C07.CState) : Env :=
-  { envT E 0 with retOf := retH E cfg ready }
+  { envT E 0 with retOfT := retH E cfg ready }
 
 theorem envH_raises (E : C06.Env) (cfg : C07.Cfg) (r : C07.CState) : (envH E cfg r).raises = fun _ => none := rfl
 theorem envH_reenter (E : C06.Env) (cfg : C07.Cfg) (r : C07.CState) : (envH E cfg r).reenter = fun _ => [] := rfl
 theorem envH_ext (E : C06.Env) (cfg : C07.Cfg) (r : C07.CState) : (envH E cfg r).ext = extT E 0 := rfl
-theorem envH_retOf (E : C06.Env) (cfg : C07.Cfg) (r : C07.CState) : (envH E cfg r).retOf = retH E cfg r := rfl
+theorem envH_retOf (E : C06.Env) (cfg : C07.Cfg) (r : C07.CState) : (envH E cfg r).retOfT = retH E cfg r := rfl
 theorem retH_send (E : C06.Env) (cfg : C07.Cfg) (r : C07.CState) : retH E cfg r "owner" "_send_this" [] = .bytes cfg.sendThis := rfl
 theorem retH_expect (E : C06.Env) (cfg : C07.Cfg) (r : C07.CState) : retH E cfg r "owner" "_expect_this" [] = .bytes cfg.expectThis := rfl
 theorem retH_ready (E : C06.Env) (cfg : C07.Cfg) (r : C07.CState) (v : Val) :
@@ -194,7 +194,7 @@ def ExcRel (cls : String) (e : C07.Err) : Prop :=
   (e = .recordError ∧ ∃ e6 : C06.Err, cls = e6.name)
 
 theorem ExcRel.facts {cls : String} {e : C07.Err} (h : ExcRel cls e) :
-    isPseudoExc cls = false ∧ (cls = "BadHandshake" ↔ e = .badHandshake) ∧ (e ≠ .recordError → cls = e.name) := by
+    isPseudoExcT cls = false ∧ (cls = "BadHandshake" ↔ e = .badHandshake) ∧ (e ≠ .recordError → cls = e.name) := by
   rcases h with ⟨rfl, rfl⟩ | ⟨rfl, rfl⟩ | ⟨rfl, rfl⟩ | ⟨rfl, rfl⟩ | ⟨rfl, e6, rfl⟩
   · exact ⟨by decide, by simp, fun _ => rfl⟩
   · exact ⟨by decide, by simp, fun _ => rfl⟩
